@@ -545,6 +545,12 @@ vfps::HDF5File::_makeDatasetInfo( std::string name
     for (auto& dim : maxdims) {
         dim = std::max(dim, static_cast<hsize_t>(1));
     }
+    // a chunk must fit into a dimension of fixed size
+    for (size_t i=0; i<rank; i++) {
+        if (maxdims[i] != H5F_UNLIMITED) {
+            chunkdims[i] = std::min(chunkdims[i],maxdims[i]);
+        }
+    }
 
     H5::DataType rv_datatype;
     if (std::is_same<datatype,float>::value) {
